@@ -178,7 +178,10 @@ def access_targets():
     ctt = Fn('cache_targets_task', ITU, 'cache_targets', flt='targets_iterator_t::cache_targets', lambda_index=0, members=members, calls=calls, **common)
     cft = Fn('cache_flatten_task', ITU, 'cache_flatten', flt='flatten_iterator_t::cache_flatten', lambda_index=0, members=members, calls=calls,
              extra_params=['struct nv_samples* samples', 'struct nv_dataset* dataset'], **common)
-    return [Target('targets_scaled', [tsc()], H), Target('flatten_scaled', [fsc()], H),
+    sset = Fn('scaling_set', ITU, 'scaling', flt='targets_iterator_t::scaling', select=nparams(1), members=members, calls=calls, **common)
+    bset = Fn('batch_set', ITU, 'batch', flt='targets_iterator_t::batch', select=nparams(1), members=members, calls=calls, **common)
+    return [Target('scaling_set', [sset], H), Target('batch_set', [bset], H),
+            Target('targets_scaled', [tsc()], H), Target('flatten_scaled', [fsc()], H),
             Target('targets_at', [tat, tsc(), mkr(), rng()], H), Target('flatten_at', [fat, fsc(), mkr(), rng()], H),
             Target('cache_targets_task', [ctt, tsc(), mkr(), rng()], H), Target('cache_flatten_task', [cft, fsc(), mkr(), rng()], H)]
 
